@@ -2,6 +2,7 @@ import Momo.Proof.HashMetaChain
 import Momo.Proof.HashMetaBucket
 import Momo.Proof.TrEqHashMeta
 import Momo.Proof.TrEqWave2Bucket
+import Momo.Proof.TrEqWave3
 /-!
 # C12 — Growth reusing stored hash bits places elements where a full rehash would
 
@@ -561,6 +562,28 @@ theorem C12_limp4_addCrt_translated (b : P4.Bucket) (h L p : Nat) (hL : L ≤ 63
 -- the translated `AddCrt` run on concrete values: second element of a bucket whose array has one slot (case 1 of the switch)
 example : (TrEq.trLimp4AddCrt (TrEq.trLimp4AddCrt (P4.Bucket.new 4 4 1) 0x123456789ABCDEF0 10 0) 0xFEDCBA9876543210 10 1).mpi = 2 := by
   decide
+
+/-! #### third wave (tools/trspecs/Wave3.py → `Momo/Translated/Wave3.lean`; equivalences: `Proof/TrEqWave3.lean`) -/
+
+/-- **The layout constants of `BucketLimP4` from the header text.** `hashCodeShift`, `maskEmpty`, `emptyHashProbe` as translated from
+    details/HashBucketLimP4.h are the constants the model `P4` (and therefore every `C12_limp4_*` theorem) is stated with. -/
+theorem C12_limp4_constants_translated :
+    Tr.limp4_hashCodeShift = P4.hashCodeShift ∧ Tr.limp4_maskEmpty = P4.maskEmpty ∧ Tr.limp4_emptyHashProbe = P4.emptyHashProbe :=
+  ⟨TrEq.tr_limp4_hashCodeShift, TrEq.tr_limp4_maskEmpty, TrEq.tr_limp4_emptyHashProbe⟩
+
+/-- **`BucketOpen2N2::hashCodeShift` from the header text** is the model's `O2.hashCodeShift`. -/
+theorem C12_open2n2_hashCodeShift_translated : Tr.open2n2_hashCodeShift = O2.hashCodeShift := TrEq.tr_open2n2_hashCodeShift
+
+/-- **`BucketLimP4::WasFull` from the header text** is the model's `P4.Bucket.wasFull` (with `pvGetMemPoolIndex()` = `mpi`). -/
+theorem C12_limp4_WasFull_translated (b : P4.Bucket) : Tr.limp4_WasFull b.maxCount b.mpi = b.wasFull := TrEq.tr_limp4_WasFull b
+
+/-- **`UIntMath::DivByConst` / `BucketLim4::pvGetMemPoolIndex()` / `BucketOne::hashCodeShift` from the header text** compute the plain
+    quotient / remainder, `state / 2^(32 - logMaxCount) + 1` and `(8 - stateSize) * 8` (no wrap under the stated bounds). -/
+theorem C12_lim4_arith_translated (v m L s k : Nat) (hv : v < 2 ^ 64) (hL : L ≤ 32) (hs : s < 2 ^ 32) (hk : k ≤ 8) :
+    Tr.um_DivByConst_quotient v m = v / m ∧ Tr.um_DivByConst_remainder v m (Tr.um_DivByConst_quotient v m) = v % m ∧
+    Tr.lim4_pvGetMemPoolIndex L s = s / 2 ^ (32 - L) + 1 ∧ Tr.lim4_maxCount L = 2 ^ L ∧ Tr.one_hashCodeShift k = (8 - k) * 8 :=
+  ⟨(TrEq.tr_um_DivByConst v m hv).1, (TrEq.tr_um_DivByConst v m hv).2, TrEq.tr_lim4_pvGetMemPoolIndex L s hL hs,
+   TrEq.tr_lim4_maxCount L (by omega), TrEq.tr_one_hashCodeShift k hk⟩
 
 /-! Non-vacuity: concrete states meeting the hypotheses. -/
 
